@@ -56,8 +56,8 @@ func (fs *FS) addMount(p string, mountFS hackpadfs.FS) error {
 	fs.mountMu.Lock()
 	defer fs.mountMu.Unlock()
 
-	dir, base := path.Split(p)
-	parentFS, subPath := fs.Mount(dir) // get this mount point's parent mount, verify dir exists
+	dir, base := path.Dir(p), path.Base(p) // not path.Split: its dir keeps a trailing slash, which is not a valid name
+	parentFS, subPath := fs.Mount(dir)     // get this mount point's parent mount, verify dir exists
 	f, err := parentFS.Open(path.Join(subPath, base))
 	if err != nil {
 		return err
@@ -90,6 +90,10 @@ func (fs *FS) Mount(path string) (mount hackpadfs.FS, subPath string) {
 }
 
 func (fs *FS) mountPoint(path string) (_ hackpadfs.FS, mountPoint, subPath string) {
+	if !hackpadfs.ValidPath(path) {
+		// never normalise an invalid name ("mnt/", "mnt//x") into a valid sub-path: let the root FS refuse it
+		return fs.rootFS, ".", path
+	}
 	var resultPath string
 	resultFS := fs.rootFS
 	fs.mounts.Range(func(key, value interface{}) bool {
